@@ -248,3 +248,13 @@ package main
 //@   requires module != nil
 //@   ensures compiledTypeDefs != nil && forall(j, 0, len(module.Items), typeis(module.Items[j], *ast.TypeDef) && module.Items[j].(*ast.TypeDef) != nil ==> has(compiledTypeDefs, module.Items[j].(*ast.TypeDef).Name))
 //@   loop 1 invariant defs != nil && 0 <= rangeidx && forall(j, 0, rangeidx, typeis(module.Items[j], *ast.TypeDef) && module.Items[j].(*ast.TypeDef) != nil ==> has(defs, module.Items[j].(*ast.TypeDef).Name))
+
+// ---- request body binding, one rule for both engines (C02): a JSON body is read for POST, PUT, PATCH and
+// ---- DELETE when the Content-Type is empty, "application/json" or starts with it
+//@ spec func jsonCT(ct string) bool = ct == "" || ct == "application/json" || (len(ct) >= 16 && ct[0:16] == "application/json")
+//@ spec func bodyMethod(m string) bool = m == "POST" || m == "PUT" || m == "PATCH" || m == "DELETE"
+//@ func createCompiledRouteHandler$1
+//@   assertat "if shouldParseJSON && ctx.Request.Body != nil {" shouldParseJSON == jsonCT(contentType) && bodyMethod(ctx.Request.Method)
+//@   assertat "if err := validateCompiledInput(route, nil); err != nil {"#3 !bodyMethod(ctx.Request.Method)
+//@ func executeRoute
+//@   assertat "if shouldParseJSON && ctx.Request.Body != nil {" shouldParseJSON == jsonCT(contentType) && bodyMethod(ctx.Request.Method)
